@@ -26,6 +26,30 @@ pub fn author(n: u8) -> Id32 {
     a
 }
 
+/// A key that shares its first 31 bytes with `author(n)` (keys and ids that differ only at one end must never be
+/// confused by an index key built from a prefix or suffix)
+pub fn author_twin(n: u8) -> Id32 {
+    let mut a = author(n);
+    a[31] ^= 1;
+    a
+}
+
+/// Mostly a fresh random id; sometimes one that differs from an id already used only in its last or first byte
+pub fn fresh_id(rng: &mut Rng, eng: &Eng) -> Id32 {
+    if !eng.all.is_empty() && rng.chance(1, 6) {
+        let mut id = rng.pick(&eng.all).sem.id;
+        if rng.chance(1, 2) {
+            id[31] = id[31].wrapping_add(1 + rng.below(3) as u8);
+        } else {
+            id[0] ^= 1 << rng.below(8);
+        }
+        if !eng.all.iter().any(|e| e.sem.id == id) {
+            return id;
+        }
+    }
+    rng.arr32()
+}
+
 pub fn long_d(n: usize, tail: &str) -> String {
     let mut s = "D".repeat(n.saturating_sub(tail.len()));
     s.push_str(tail);
@@ -35,7 +59,7 @@ pub fn long_d(n: usize, tail: &str) -> String {
 impl Pools {
     pub fn basic() -> Pools {
         Pools {
-            authors: vec![author(0), author(1), author(2)],
+            authors: vec![author(0), author_twin(0), author(1), author(2)],
             kinds: vec![1, 1, 7, 0, 3, 10002, 30023, 30024, 1059, 20001, 5],
             times: vec![100, 101, 102, 103, 200, 255, 256, 65535, 65536, (1 << 32) - 1, 1 << 32, (1 << 32) + 1],
             dvals: vec!["".into(), "x".into(), "y".into(), "x:y".into(), "x\u{0}".into(), long_d(182, "a"), long_d(183, "ab"), long_d(183, "ac")],
@@ -134,7 +158,7 @@ pub fn gen_event(rng: &mut Rng, p: &Pools, eng: &Eng, kind: Option<u16>) -> SemE
     }
     let clen = *rng.pick(&p.content_lens);
     SemEvent {
-        id: rng.arr32(),
+        id: fresh_id(rng, eng),
         pubkey,
         sig: [0x51; 64],
         kind,
